@@ -540,8 +540,10 @@ class Aggregate(list):
     def __getattr__(self, attr: str):
         """Proxy access to attributes of SubAggregates"""
         for subaggregate in self.subaggregates:
-            subagg = getattr(self, subaggregate)
             try:
+                # N.B. ``subaggregates`` includes list members, which aren't
+                # stored as instance attributes (lookup raises KeyError)
+                subagg = getattr(self, subaggregate)
                 return getattr(subagg, attr)
             except (AttributeError, KeyError):
                 continue
